@@ -23,6 +23,7 @@ import (
 	"os"
 	"path/filepath"
 	"reflect"
+	"runtime"
 	"strings"
 	"sync"
 	"sync/atomic"
@@ -75,6 +76,27 @@ var c18Srv struct {
 // request behind that the server would otherwise apply after the command has
 // returned, i.e. "during" the next step.
 func c18Quiesce() {
+	// first: no goroutine of an earlier command is left inside the client or the command's own code (an aborted run
+	// returns while its workers are still winding down; on a loaded machine such a worker can send one more request
+	// long after the servers looked idle). Bounded by a count of looks, never a verdict.
+	for i := 0; i < 2000; i++ {
+		buf := make([]byte, 1<<20)
+		buf = buf[:runtime.Stack(buf, true)]
+		busy := false
+		for _, g := range strings.Split(string(buf), "\n\n") {
+			if strings.Contains(g, "c18Quiesce") {
+				continue
+			}
+			if strings.Contains(g, "regclient.(*RegClient).") || strings.Contains(g, "cmd/regsync.(*rootOpts).") || strings.Contains(g, "regclient/scheme/reg.(*Reg).") {
+				busy = true
+				break
+			}
+		}
+		if !busy {
+			break
+		}
+		time.Sleep(500 * time.Microsecond)
+	}
 	wait := func() {
 		for i := 0; i < 50000; i++ {
 			if c18Srv.inflight.Load() == 0 && c18Srv.active.Load() == 0 {
